@@ -395,8 +395,13 @@ def run_check(prop, spec, tier, seed, replay, cdir, key, instr, outdir, t0):
             if len(samples) < 4:
                 samples.append(s)
         for v in wo.get("violations") or []:
-            if j.get("race"):
-                v = dict(v, reproduced=True)  # stress engines: sound without deterministic replay
+            if j.get("race") or j.get("witness_sound"):
+                # stress engines, and engines whose violation is a pair of differing outputs
+                # for identical inputs: the witness is sound even if the replay does not
+                # reproduce it (goroutines outside the simulator's control)
+                if not v.get("reproduced"):
+                    v = dict(v, msg=v.get("msg", "") + "  [did not reproduce on replay: depends on scheduling the simulator does not control]")
+                v = dict(v, reproduced=True)
             viols.append(v)
         for m in wo.get("infra") or []:
             infra_msgs.append(m)
